@@ -3,6 +3,7 @@
 package props
 
 import (
+	"cmp"
 	"fmt"
 	"math/rand/v2"
 
@@ -73,6 +74,16 @@ func heapCmp(dir int) func(a, b Elem) int {
 		}
 	}
 	switch dir {
+	case 5: // by insertion tag: unrelated to the key order
+		return func(a, b Elem) int { return cmp.Compare(a.Tag, b.Tag) }
+	case 6: // by a scrambled function of key and tag: unrelated to both
+		return func(a, b Elem) int {
+			x, y := uint32(a.Key*40503+a.Tag*9973)*2654435761>>8, uint32(b.Key*40503+b.Tag*9973)*2654435761>>8
+			if x != y {
+				return cmp.Compare(x, y)
+			}
+			return cmpElem(a, b)
+		}
 	case 3:
 		return cmpElemWide
 	case 4:
@@ -437,7 +448,7 @@ func heapGenOps(r *rand.Rand, n int, keyRange int, byPos bool) []hop {
 		for i := range ks {
 			ks[i] = key()
 		}
-		ops = append(ops, hop{Op: 'N', Keys: ks, Dir: r.IntN(5), I: r.IntN(4)})
+		ops = append(ops, hop{Op: 'N', Keys: ks, Dir: r.IntN(7), I: r.IntN(4)})
 		size = m
 	}
 	for len(ops) < n {
@@ -492,7 +503,7 @@ func heapGenOps(r *rand.Rand, n int, keyRange int, byPos bool) []hop {
 			ops = append(ops, hop{Op: 'S', Keys: ks})
 			size = m
 		case 10:
-			ops = append(ops, hop{Op: 'O', Dir: r.IntN(5)})
+			ops = append(ops, hop{Op: 'O', Dir: r.IntN(7)})
 		case 11:
 			if r.IntN(4) == 0 {
 				ops = append(ops, hop{Op: 'C'})
@@ -519,7 +530,7 @@ func heapGenLarge(r *rand.Rand, n, keyRange int, byPos bool) []hop {
 	case 0:
 		ops = append(ops, hop{Op: 'S', Keys: ks})
 	case 1:
-		ops = append(ops, hop{Op: 'N', Keys: ks, Dir: r.IntN(5), I: r.IntN(3)})
+		ops = append(ops, hop{Op: 'N', Keys: ks, Dir: r.IntN(7), I: r.IntN(3)})
 	default:
 		for _, k := range ks {
 			ops = append(ops, hop{Op: 'A', Key: k})
@@ -551,7 +562,7 @@ func heapGenLarge(r *rand.Rand, n, keyRange int, byPos bool) []hop {
 			}
 		default:
 			if r.IntN(6) == 0 {
-				ops = append(ops, hop{Op: 'O', Dir: r.IntN(5)})
+				ops = append(ops, hop{Op: 'O', Dir: r.IntN(7)})
 			}
 		}
 	}
@@ -679,4 +690,221 @@ func heapBigRun(r *rand.Rand, checkOrder bool, step func()) string {
 		}
 	}
 	return ""
+}
+
+// heapVeryLarge fills a queue with n elements (bulk Set for the first half,
+// Add for the rest), removes a few thousand through reported positions when an
+// update callback is installed, and drains it. It checks the count, the
+// reported positions of a sample of elements at the peak, and that the drain
+// is non-decreasing and returns exactly what was held. Order is checked only
+// when checkOrder is set (callers set the F1 counterfactual switch for that).
+func heapVeryLarge(r *rand.Rand, n int, update, checkOrder bool, step func()) string {
+	pos := map[int]int{}
+	q := heapq.New(cmpElem)
+	if update {
+		q.Update(func(e Elem, p int) { pos[e.Tag] = p })
+	}
+	held := make(map[int]int, n) // tag -> key
+	half := make([]Elem, n/2)
+	for i := range half {
+		half[i] = Elem{Key: r.IntN(n), Tag: i + 1}
+		held[i+1] = half[i].Key
+	}
+	q.Set(half)
+	for i := n / 2; i < n; i++ {
+		e := Elem{Key: r.IntN(n), Tag: i + 1}
+		held[e.Tag] = e.Key
+		p := q.Add(e)
+		if update && pos[e.Tag] != p {
+			return fmt.Sprintf("Add returned offset %d, last reported offset %d (element %d of %d)", p, pos[e.Tag], i, n)
+		}
+		if i%4096 == 0 {
+			step()
+		}
+	}
+	if q.Len() != n {
+		return fmt.Sprintf("Len=%d after putting in %d elements", q.Len(), n)
+	}
+	if update {
+		for k := 0; k < 4000; k++ {
+			tag := 1 + r.IntN(n)
+			key, ok := held[tag]
+			if !ok {
+				continue
+			}
+			p, rep := pos[tag]
+			got, gok := q.Peek(p)
+			if !rep || !gok || got.Tag != tag || got.Key != key {
+				return fmt.Sprintf("element tag %d was last reported at offset %d (reported=%v) but Peek there gives tag %d (ok=%v), queue of %d", tag, p, rep, got.Tag, gok, q.Len())
+			}
+			if k%2 == 0 {
+				if rem, rok := q.Remove(p); !rok || rem.Tag != tag {
+					return fmt.Sprintf("Remove(reported offset %d of tag %d) removed tag %d (ok=%v)", p, tag, rem.Tag, rok)
+				}
+				delete(held, tag)
+			}
+		}
+	}
+	prev, first := 0, true
+	for q.Len() > 0 {
+		e, ok := q.Pop()
+		if !ok {
+			return "Pop failed on a non-empty queue"
+		}
+		key, h := held[e.Tag]
+		if !h || key != e.Key {
+			return fmt.Sprintf("Pop returned tag %d key %d, which is not held (held=%v)", e.Tag, e.Key, h)
+		}
+		delete(held, e.Tag)
+		if checkOrder && !first && e.Key < prev {
+			return fmt.Sprintf("drain not ordered: key %d popped after key %d, %d elements left", e.Key, prev, q.Len())
+		}
+		prev, first = e.Key, false
+		if q.Len()%8192 == 0 {
+			step()
+		}
+	}
+	if len(held) != 0 {
+		return fmt.Sprintf("%d elements were put in but never came out", len(held))
+	}
+	return ""
+}
+
+// heapLevelSwap: a queue of 2^(j+2)-1 elements is Set in index order (element
+// k at offset k), then Reordered under a comparison that ranks elements by
+// their tree level with levels j and j+1 exchanged. Rebuilding the heap then
+// takes exactly 2^j exchanges (every node of level j with its left child), so
+// anything the queue counts per exchange wraps if it is 8, 16 or 17 bits wide.
+// Afterwards every element must be found at its last reported offset, the
+// offsets must be a permutation, and removals through reported offsets must
+// remove the right elements.
+func heapLevelSwap(j int, step func()) string {
+	n := 1<<(j+2) - 1
+	level := func(k int) int { // tree level of heap offset k
+		l := 0
+		for k > 0 {
+			k = (k - 1) / 2
+			l++
+		}
+		return l
+	}
+	rank := func(e Elem) int {
+		l := level(e.Key)
+		switch l {
+		case j:
+			l = j + 1
+		case j + 1:
+			l = j
+		}
+		return l
+	}
+	pos := make([]int, n)
+	reported := make([]bool, n)
+	q := heapq.New(cmpElem)
+	q.Update(func(e Elem, p int) { pos[e.Tag], reported[e.Tag] = p, true })
+	vs := make([]Elem, n)
+	for i := range vs {
+		vs[i] = Elem{Key: i, Tag: i}
+	}
+	q.Set(vs)
+	step()
+	q.Reorder(func(a, b Elem) int {
+		if ra, rb := rank(a), rank(b); ra != rb {
+			return ra - rb
+		}
+		return a.Key - b.Key
+	})
+	step()
+	seen := make([]bool, n)
+	for t := 0; t < n; t++ {
+		got, ok := q.Peek(pos[t])
+		if !reported[t] || !ok || got.Tag != t {
+			return fmt.Sprintf("after Reorder (exactly %d exchanges): element %d was last reported at offset %d, Peek there gives element %d (ok=%v)", 1<<j, t, pos[t], got.Tag, ok)
+		}
+		if seen[pos[t]] {
+			return fmt.Sprintf("after Reorder: offset %d reported for two elements", pos[t])
+		}
+		seen[pos[t]] = true
+	}
+	for k := 0; k < 300; k++ {
+		t := (k*7919 + 1<<j - 1) % n
+		if !reported[t] {
+			continue
+		}
+		got, ok := q.Remove(pos[t])
+		if !ok || got.Tag != t {
+			return fmt.Sprintf("after Reorder: Remove(reported offset %d of element %d) removed element %d (ok=%v)", pos[t], t, got.Tag, ok)
+		}
+		reported[t] = false
+	}
+	return ""
+}
+
+// heapReorderSmall: a queue of n elements holding a given arrangement (built
+// with NewWithData from a slice that is a heap under order A) is Reordered to
+// an order B given by rankB (an arbitrary ranking unrelated to A); afterwards
+// the drain must be sorted under B. Returns a problem or "".
+func heapReorderSmall(layout []int, rankB []int) string {
+	n := len(layout)
+	data := make([]Elem, n)
+	for i, k := range layout {
+		data[i] = Elem{Key: k, Tag: i}
+	}
+	q := heapq.NewWithData(cmpElem, data)
+	q.Reorder(func(a, b Elem) int { return rankB[a.Key] - rankB[b.Key] })
+	prev := -1
+	for i := 0; i < n; i++ {
+		f := q.Front()
+		e, ok := q.Pop()
+		if !ok || e != f {
+			return fmt.Sprintf("Pop=(%v,%v) but Front was %v", e, ok, f)
+		}
+		if rankB[e.Key] < prev {
+			return fmt.Sprintf("after Reorder of arrangement %v (a heap under the natural order) to the order given by ranks %v: element with rank %d popped after rank %d", layout, rankB, rankB[e.Key], prev)
+		}
+		prev = rankB[e.Key]
+	}
+	if q.Len() != 0 {
+		return "queue not empty after n pops"
+	}
+	return ""
+}
+
+// permutations calls f with every permutation of 0..n-1 (Heap's algorithm);
+// f must not keep the slice. It stops when f returns false.
+func permutations(n int, f func([]int) bool) {
+	p := make([]int, n)
+	for i := range p {
+		p[i] = i
+	}
+	cnt := make([]int, n)
+	if !f(p) {
+		return
+	}
+	for i := 0; i < n; {
+		if cnt[i] < i {
+			if i%2 == 0 {
+				p[0], p[i] = p[i], p[0]
+			} else {
+				p[cnt[i]], p[i] = p[i], p[cnt[i]]
+			}
+			if !f(p) {
+				return
+			}
+			cnt[i]++
+			i = 0
+		} else {
+			cnt[i] = 0
+			i++
+		}
+	}
+}
+
+func isHeapLayout(p []int) bool {
+	for i := 1; i < len(p); i++ {
+		if p[i] < p[(i-1)/2] {
+			return false
+		}
+	}
+	return true
 }
